@@ -2,7 +2,7 @@
 # seedtest2.sh <Cxx> [name]: like seedtest.sh but runs the check against the sub-agent's worktree
 # (VERIF_REPO_SRC=<worktree>/src) instead of patching /repo -- usable while other jobs use /repo.
 set -u
-P=$1; NAME=${2:-$1}; WT=/tmp/seed-$NAME; OUT=/verif/seeded/$NAME
+P=$1; NAME=${2:-$1}; WT=${3:-/tmp/seed-$NAME}; OUT=/verif/seeded/$NAME
 mkdir -p $OUT
 cp $WT/_seed/patch.diff $OUT/patch.diff; cp $WT/_seed/demo_test.py $OUT/ 2>/dev/null; cp $WT/_seed/meta.json $OUT/meta.agent.json 2>/dev/null
 cd $WT
